@@ -26,12 +26,12 @@ Definition tsvd (M : arr2) (d2 : Q) (rmax : nat) (left_ortho : bool) (a : svd_an
           tab2 r n (fun k j => Qred (sinv k * qsum m (fun i => Qred (g2 U i k * g2 M i j))))).
 
 (* ---- round_tt(eps, rmax) ---- *)
-Record ts_answer := mkTs { ts_left : arr2; ts_right : arr2; ts_M : arr2; ts_d2 : Q }.   (* recorded truncated_svd call *)
+Record ts_answer := mkTs { ts_left : arr2; ts_right : arr2; ts_M : arr2; ts_d2 : Q; ts_rmax : nat }.   (* recorded truncated_svd call; rmax 0 = None *)
 Record rst := mkRst { r_st : st; r_ts : list ts_answer; r_ok : bool }.
 Definition frob2 (c : arr3) : Q := fold_right (fun x acc => Qred (x * x + acc)) 0 (a_dat c).
 Definition close5 (x y : Q) : bool := Qle_bool (Qabs (x - y)) ((1 # 100000) * (1 + Qabs x)).
 
-Definition tt_step (mu : nat) (d2 : Q) (s : rst) : rst :=
+Definition tt_step (rmaxs : list nat) (mu : nat) (d2 : Q) (s : rst) : rst :=
   let ms := s_modes (r_st s) in
   let m := nth_mode mu ms in let c := cm_core m in
   let pv := nth_mode (mu - 1) ms in let cp := cm_core pv in
@@ -43,15 +43,15 @@ Definition tt_step (mu : nat) (d2 : Q) (s : rst) : rst :=
       let c' := tab3 r (a_d1 c) (a_d2 c) (fun a j q => g2 (ts_right an) a (j * a_d2 c + q)) in
       let cp' := tab3 (a_d0 cp) (a_d1 cp) r (fun p j a => qsum (a_d2 cp) (fun t => Qred (g3 cp p j t * g2 (ts_left an) t a))) in
       mkRst (mkSt (upd_mode (mu - 1) (upd_mode mu ms (mkCM c' (cm_U m))) (mkCM cp' (cm_U pv))) (s_ans (r_st s)) (s_ok (r_st s)))
-            rest (r_ok s && arr2_close M (ts_M an) && close5 d2 (ts_d2 an))
+            rest (r_ok s && arr2_close M (ts_M an) && close5 d2 (ts_d2 an) && Nat.eqb (ts_rmax an) (nth (mu - 1) rmaxs O))
   end.
-Fixpoint sweep (mu n : nat) (d2 : Q) (s : rst) : rst :=     (* mu, mu-1, ..., mu-n+1 *)
-  match n with O => s | S n' => sweep (mu - 1) n' d2 (tt_step mu d2 s) end.
+Fixpoint sweep (rmaxs : list nat) (mu n : nat) (d2 : Q) (s : rst) : rst :=     (* mu, mu-1, ..., mu-n+1; rmax=rmax[mu-1] *)
+  match n with O => s | S n' => sweep rmaxs (mu - 1) n' d2 (tt_step rmaxs mu d2 s) end.
 
-Definition round_tt (eps2 : Q) (s0 : st) (ts : list ts_answer) : rst :=
+Definition round_tt (eps2 : Q) (rmaxs : list nat) (s0 : st) (ts : list ts_answer) : rst :=
   let N := length (s_modes s0) in
   let s1 := factor_step (N - 1) (orthogonalize (N - 1) s0) in
   let last := cm_core (nth_mode (N - 1) (s_modes s1)) in
   (* delta = eps / max(1, sqrt(N-1)) * ||cores[-1]||   =>   delta^2 = eps^2 / max(1, N-1) * ||cores[-1]||^2 *)
   let d2 := Qred (eps2 / (inject_Z (Z.of_nat (Nat.max 1 (N - 1)))) * frob2 last) in
-  sweep (N - 1) (N - 1) d2 (mkRst s1 ts true).
+  sweep rmaxs (N - 1) (N - 1) d2 (mkRst s1 ts true).
